@@ -57,7 +57,8 @@ META = dict(
               "type (9 x 4) over all texts of <= 2 lines; file names: <= 3 tokens of {s . / fna frn} x 21 endings "
               "(2440 distinct paths, 2312 judged) x {absolute, relative} x {load, loadall}; interleavings: 11 actors "
               "(loadall and load on s.fna s.frn s.faa s.txt, direct routes of the 3 types), 66 pairs, 896 interleavings; "
-              "header collisions: <= 3 records, 3 bodies (3421 texts) through read_fasta, load, loadall as .fna",
+              "header collisions: <= 3 records, 3 bodies (3421 texts) through read_fasta, load, loadall as .fna; "
+              "caller-update histories: every code x 4 ways of obtaining a Formula x 2 in-place updates (488), each in its own fork",
         thorough="all strings of <= 4 codes (aa, dna, rna) with all their permutations, space/'*' "
                  "insertions and the formula-prefix route; all FASTA texts of <= 5 lines through read_fasta "
                  "and load/loadall with extensions .faa .fna .frn; extension x explicit type (9 x 4) over "
